@@ -76,6 +76,9 @@ class _Model:
         self.likelihood_evaluation_time = datetime.timedelta(seconds=t)
         self.names = ["x"]
 
+    def from_unit_hypercube(self, x):
+        return x
+
 
 def _same(ctx, a, b, label):
     """Deep comparison of two attribute values; symbolic leaves are compared by the solver."""
@@ -363,6 +366,39 @@ def make_ins(save_log_q, iid):
                 continue
             _same(ctx, v, new.proposal.__dict__.get(k), f"proposal attribute '{k}' restored")
         ctx.prove("model" not in new.proposal.__dict__ and "_flow_config" not in new.proposal.__dict__, "model and flow configuration are not pickled with the proposal")
+        # ---- the real resume: re-attachment and re-derivation of dropped density tables -----------
+        calls = []
+
+        class Prop:
+            def resume(self, model, flow_config, weights_path=None):
+                self.resumed_with = (model, flow_config, weights_path)
+
+            def compute_meta_proposal_samples(self, samples):
+                calls.append(samples)
+                return None, ("log_q of", id(samples))
+        new.proposal = Prop()
+        new.add_fields = lambda: None
+        model2 = _Model(0, 0.0)
+        ImportanceNestedSampler.log_evidence_error_backup = None
+        try:
+            st_logz = type("S", (), {"logZ": 0.0, "compute_uncertainty": lambda self: 0.0})()
+            for store in (new.training_samples, new.iid_samples):
+                if store is not None:
+                    store.state = st_logz
+            ImportanceNestedSampler.resume_from_pickled_sampler.__func__(ImportanceNestedSampler, new, model2, flow_config={}, weights_path=None)
+        except Exception as e:
+            ctx.fail("INS resume raised " + type(e).__name__, str(e))
+            return
+        ctx.prove(model2.likelihood_evaluations == n_eval, "INS: evaluation count continues from the checkpoint")
+        ctx.prove(new.model is model2 and new.proposal.resumed_with[0] is model2, "INS: the new model is attached to sampler and proposal")
+        if save_log_q:
+            ctx.prove(calls == [], "saved density tables are not recomputed")
+        else:
+            want = [new.training_samples.samples] + ([new.iid_samples.samples] if iid else [])
+            ctx.prove(len(calls) == len(want) and all(a is b for a, b in zip(calls, want)), "each dropped density table is re-derived from its own sample set")
+            ctx.prove(new.training_samples.log_q == ("log_q of", id(new.training_samples.samples)), "training density table re-derived from the training samples")
+            if iid:
+                ctx.prove(new.iid_samples.log_q == ("log_q of", id(new.iid_samples.samples)), "independent-set density table re-derived from the independent samples")
         ctx.cover("end")
     return body
 
